@@ -18,6 +18,20 @@ CHECKS.update({
    text="Every byte string up to the bound over an alphabet that always contains newline, tab, a multi-byte rune and ill-formed bytes is scanned by compiled unmodified lexers of a grammar selection; offset, line, column and literal of every token (INVALID, EOF and post-EOF calls included) must equal the reference tokenizer's, which implies tiling.",
    note="Positions are compared for a selection of lexers (distinct emitted tables); longer inputs than the bound are covered only through product-state witnesses.", ref="6 C08"),
 })
+CHECKS.update({
+ "C02": dict(cat="model_checking", tech="product automaton (emitted LR tables x independently built canonical LR(1)) to closure + exhaustive token sequences against Earley, on read-back tables and compiled parsers",
+   text="For every enumerated grammar that gocc reports conflict-free the emitted action/goto/production tables, read back from the generated files, are (i) driven over every token sequence up to the bound and compared with an Earley recogniser and (ii) matched against an independently constructed canonical LR(1) automaton by product exploration to closure, which extends the verdict to sequences of every length; a selection is compiled unmodified and its real Parse is driven with every sequence through a scripted Scanner (termination by scan budget).",
+   note="Grammar size bounded by the families; Earley/LR(1) references are textbook constructions cross-validated against each other; table reader bound to the compiled tables (VerifTables export).", ref="6 C02"),
+ "C04": dict(cat="model_checking", tech="classification of every grammar of an enumerated family by an independently built canonical LR(1) automaton vs the real generator's exit status and conflict report, with and without -a",
+   text="Every grammar of the family is run through the real generator in both modes; the reference canonical LR(1) automaton (all states and transitions built and counted) decides whether some terminal admits two actions and whether accept is involved; disagreements are confirmed on the grammar (Earley agreement of the reference table / the competing cell) before being reported.",
+   note="Reading: an accept/reduce conflict is announced by gocc's refusal message (it aborts before the count line). Grammar size bounded by the families.", ref="6 C04"),
+ "C05": dict(cat="model_checking", tech="product automaton (-a tables x canonical LR(1) resolved by shift-then-lowest-production) to closure + compiled parsers on exhaustive token sequences (verdict and reduction sequence)",
+   text="For every conflicting grammar of the families and every permutation of the alternatives of the small ones, the table emitted with -a is compared cell by cell with the canonical LR(1) automaton resolved by the stated rule through product exploration to closure (all sequences, all lengths); a selection is compiled and its verdict and reduction sequence compared on every token sequence up to the bound.",
+   note="Grammar size bounded by the families; rows with three competing actions are forced by seeds.", ref="6 C05"),
+ "C06": dict(cat="model_checking", tech="exhaustive non-sentences up to a bound on read-back tables and compiled parsers against Earley viable-prefix/continuation sets, extended to all lengths by the canonical-LR(1) product",
+   text="On every non-sentence up to the bound the table-driven parser must stop at the first token that makes the prefix non-viable, without any reduction on that look-ahead, and offer exactly the Earley continuation set; compiled parsers must return that very token object (pointer identity), that expected set, and run no action or scan afterwards. Product closure with canonical LR(1) carries the result to all lengths.",
+   note="Quantifier restricted as in the statement (conflict-free, error-free, productive).", ref="6 C06"),
+})
 NOT_YET = {}
 
 def main():
